@@ -40,7 +40,12 @@ func renderBody(segs []pxSeg) []byte {
 			}
 		case "high":
 			for i := 0; i < s.N; i++ {
-				b.WriteByte(byte(0x80 + (i*7+si)%0x80))
+				if len(segs)%2 == 0 {
+					// every other body: one and the same high byte, the lowest one
+					b.WriteByte(0x80)
+				} else {
+					b.WriteByte(byte(0x80 + (i*7+si)%0x80))
+				}
 			}
 		case "nul":
 			for i := 0; i < s.N; i++ {
